@@ -164,11 +164,18 @@ class QuicPacketBuilder:
         """
         Starts a new frame.
         """
-        if self.remaining_buffer_space < capacity or (
-            frame_type not in NON_IN_FLIGHT_FRAME_TYPES
-            and self.remaining_flight_space < capacity
-        ):
+        if self.remaining_buffer_space < capacity:
             raise QuicPacketBuilderStop
+        if frame_type not in NON_IN_FLIGHT_FRAME_TYPES:
+            # The payload of a packet gets padded to provide the header
+            # protection sample, that padding counts as in flight too.
+            payload_size = self._buffer.tell() - self._packet_start - self._header_size
+            min_capacity = max(
+                capacity,
+                PACKET_NUMBER_MAX_SIZE - PACKET_NUMBER_SEND_SIZE - payload_size,
+            )
+            if self.remaining_flight_space < min_capacity:
+                raise QuicPacketBuilderStop
 
         self._buffer.push_uint_var(frame_type)
         if frame_type not in NON_ACK_ELICITING_FRAME_TYPES:
